@@ -47,6 +47,9 @@ type Opts struct {
 	// in-process streams. Fatal must be 0 (a response produced while the RPC ends
 	// is not observable over a real transport).
 	Net bool
+	// NoRefCheck: the server is built with server.DisableRIBCheckFn() and the model does no
+	// reference checking (counters are not compared).
+	NoRefCheck bool
 	// ObserveEvery > 1: the server is read back (Get + hooks) only after every n-th request
 	// and at the end, so that several writes in a row are not separated by the harness's own
 	// reads (a server-side read cache must not depend on being refreshed by the observer).
@@ -123,6 +126,9 @@ func RunHistory(h hgen.History, o Opts) (*ev.Verdict, *l1.Trace) {
 	v := &ev.Verdict{}
 	tr := &l1.Trace{}
 	P := o.P
+	if o.NoRefCheck {
+		o.SrvOpts = append(append([]server.ServerOpt(nil), o.SrvOpts...), server.DisableRIBCheckFn())
+	}
 	var s *drive.Srv
 	if o.RuntimeVRFs {
 		s = drive.NewSrv(h.FwdRefs, nil, o.SrvOpts...)
@@ -139,6 +145,7 @@ func RunHistory(h hgen.History, o Opts) (*ev.Verdict, *l1.Trace) {
 		defer s.Shutdown()
 	}
 	m := model.New("DEFAULT", hgen.NIs[1:], h.FwdRefs)
+	m.RefCheck = !o.NoRefCheck
 	fold := obs.State{}
 	type sent struct {
 		ni string
@@ -184,7 +191,9 @@ func RunHistory(h hgen.History, o Opts) (*ev.Verdict, *l1.Trace) {
 		}
 		obs.CheckInstalled(m, got, v, P+"/installed-vs-model", when)
 		obs.CheckHeld(m, s.S.VerifRIB(), v, P+"/held-vs-model", when)
-		obs.CheckCounters(m, s.S.VerifRIB(), v, P+"/counter-vs-referrers", when)
+		if !o.NoRefCheck {
+			obs.CheckCounters(m, s.S.VerifRIB(), v, P+"/counter-vs-referrers", when)
+		}
 		if o.AfterBatch != nil {
 			o.AfterBatch(s, m, v, when)
 		}
